@@ -319,10 +319,15 @@ func (hfh *HttpForwarderHandlerV2) Run(ctx context.Context) {
 	var wg wait.Group
 	hfh.sendNop(ctx)
 	wg.Start(func() {
+		// The flushes still on their way at shutdown (the consolidator's last one in particular) must
+		// have taken their request slots before the slots are collected below, or they wait forever.
+		var flushes sync.WaitGroup
 		for metricMaps := range hfh.consolidatedMetrics {
 			hfh.acquireMergingSem()
 			metricMaps := metricMaps
+			flushes.Add(1)
 			go func() {
+				defer flushes.Done()
 				mergedMetricMap := gostatsd.MergeMaps(metricMaps)
 				mms := mergedMetricMap.SplitByTags(hfh.dynHeaderNames)
 				hfh.releaseMergingSem()
@@ -347,6 +352,7 @@ func (hfh *HttpForwarderHandlerV2) Run(ctx context.Context) {
 				hfh.notifyFlush()
 			}()
 		}
+		flushes.Wait()
 		for i := 0; i < cap(hfh.metricsSem); i++ {
 			hfh.acquireSem()
 		}
